@@ -37,7 +37,7 @@ class C18(PipelineCheck):
         'budget-exhaustion judged as a rate over unbiased runs (<= 25 %)',
     ]
     PROBES = ('depth>=7', 'rounds>=2', 'timer_fired', 'erasure_transformed',
-              'overwriting_transformed')
+              'overwriting_transformed', 'session_programs', 'session_pool_half_used')
     MAX_DEPTH = (1, 9)
     tiers = {'quick': {'runs': 320, 'wall_s': 60, 'run_timeout_s': 300},
              'thorough': {'runs': 6000, 'wall_s': 1100, 'run_timeout_s': 900}}
@@ -45,10 +45,79 @@ class C18(PipelineCheck):
     def before_run(self, run, sim, plan):
         sys.setrecursionlimit(2 * 1000 + 200)
 
+    def session_tail(self, run, sim, plan, probes):
+        """P9: the rest of a driver session in the same process.  hephaestus.gen_program is
+        called many times per worker process, each time resetting the identifier pool and
+        generating/mutating/translating a fresh program; state that survives from one program
+        to the next (identifier pool, class-level caches) must not make a later program fail.
+        The pool size is a per-run knob (200-450 words instead of 10000) so that a session of
+        3-7 small programs stands for a session of hundreds.  An exhausted pool is legitimate
+        only if this one program drew the whole pool by itself."""
+        import random as _r
+        from src import utils
+        from src.generators.generator import Generator
+        from src.transformations.type_erasure import TypeErasure
+        from src.transformations.type_overwriting import TypeOverwriting
+        from sim.core import apply_config, h64, OPC
+        c = plan['config']
+        rr = _r.Random(h64(plan['run_seed'], 'session'))
+        if rr.random() >= 0.3:
+            return []
+        nprog, pool = rr.randint(3, 7), rr.randint(200, 450)
+        R = utils.random
+        lang = c['language']
+        R.INITIAL_WORDS = set(rr.sample(sorted(R.INITIAL_WORDS), min(pool, len(R.INITIAL_WORDS))))
+        size0 = len(R.INITIAL_WORDS)
+        cfg = dict(c, max_depth=min(c['max_depth'], rr.randint(1, 3)))
+        wopc = OPC['word']
+        v = []
+        for k in range(nprog):
+            start = len(sim.rand.tape)
+            stage = 'generate'
+            try:
+                R.reset_word_pool()
+                apply_config(cfg)
+                sim.event('session program %d' % (k + 2))
+                p = Generator(language=lang, options={}).generate()
+                tr = pipeline.translators()[lang]('src.pkg', {'cast_numbers': bool(
+                    c.get('cast_numbers'))})
+                stage = 'translate'
+                utils.translate_program(tr, p)
+                if k % 2 == 0:
+                    stage = 'erasure'
+                    te = TypeErasure(p, lang, None, {'timeout': 600})
+                    te.transform()
+                    p = te.result()
+                    stage = 'overwriting'
+                    to = TypeOverwriting(p, lang, None, {'timeout': 600})
+                    to.transform()
+                    stage = 'translate'
+                    utils.translate_program(tr, to.result())
+                probes['session_programs'] = probes.get('session_programs', 0) + 1
+                used = sum(1 for e in sim.rand.tape[start:] if e[0] == wopc)
+                if 2 * used >= size0:
+                    probes['session_pool_half_used'] = 1
+            except (Exception, RecursionError) as e:   # noqa
+                used = sum(1 for e in sim.rand.tape[start:] if e[0] == wopc)
+                if isinstance(e, IndexError) and used >= size0:
+                    break                       # this program alone exhausted the pool
+                et, frames = pipeline.exc_signature(e)
+                v.append({'rule': 'no-exception-in-session',
+                          'sig': 'exc|session-%s|%s|%s' % (stage, et, '<'.join(reversed(frames))),
+                          'detail': '%s in stage %s of program #%d of a session in one process '
+                                    '(lang=%s depth=%d; identifier pool of %d words, this '
+                                    'program had drawn %d, pool after reset_word_pool() had %d): '
+                                    '%s' % (et, stage, k + 2, lang, cfg['max_depth'], size0, used,
+                                            used + len(R.WORDS), pipeline.exc_brief(e))})
+                break
+        return v
+
     def judge(self, run, obs, sim, plan):
         v = []
         c = plan['config']
         probes = {}
+        if run.status == 'ok':
+            v.extend(self.session_tail(run, sim, plan, probes))
         if c['max_depth'] >= 7:
             probes['depth>=7'] = 1
         if c['rounds'] >= 2:
